@@ -107,3 +107,41 @@ Proof.
   split. { vm_compute. repeat constructor; discriminate. }
   repeat split; discriminate.
 Qed.
+
+(* ---------- C17 / C15 over histories: the switches ---------- *)
+From MD.Proofs Require Import SwitchesSafe.
+
+(* in [ops0] the owner disabled swaps on pool "o.b"; afterwards the others try to switch it back on, to trade on it,
+   and to take over the pool manager *)
+Definition switch_attempts0 : list op :=
+  [ Tx "bob" "PM" (WPm (PmUpdateConfig None None None (Some {| ft_pool := "o.b"; ft_swaps := Some true; ft_deposits := None; ft_withdrawals := None |}))) [];
+    Tx "bob" "PM" (WPm (PmOwnership (Transfer "bob" None))) [];
+    Tx "bob" "PM" (WPm (PmOwnership Accept)) [];
+    Tx "carol" "PM" (WPm (PmProvide None None None "o.b" None None)) [("uusdc", 1000000); ("uusd", 1000000)];
+    Tx "bob" "PM" (WPm (PmSwap "uusd" None (Some 500000000000000000) None "o.b")) [("uusdc", 1000)];
+    Tx "bob" "PM" (WPm (PmSwap "uusd" None (Some 500000000000000000) None "o.a")) [("uom", 1000)] ].
+
+Definition switches_check : bool :=
+  match genesis_world g0 with
+  | Err _ => false
+  | Ok w0 =>
+      let w1 := run w0 ops0 in
+      let w2 := run w1 switch_attempts0 in
+      settled_b "owner" (pm_own (w_pm w1)) &&
+      match sfind p_id "o.b" (pm_pools (w_pm w1)), sfind p_id "o.b" (pm_pools (w_pm w2)) with
+      | Some p, Some p' =>
+          negb (swaps_enabled (p_status p)) && deposits_enabled (p_status p) &&
+          negb (swaps_enabled (p_status p')) && deposits_enabled (p_status p') &&
+          (* carol's deposit into the pool went through (its reserves grew), the swap on it did not *)
+          forallb (fun c => 0 <? amount_of c) (p_assets p') && forallb (fun c => amount_of c =? 0) (p_assets p)
+      | _, _ => false
+      end
+  end.
+
+Definition switches_statement : Prop :=
+  switches_check = true /\ Forall (not_signed_by "owner") switch_attempts0.
+
+Lemma switches_example : switches_statement.
+Proof.
+  split; [vm_compute; reflexivity|]. unfold switch_attempts0. repeat constructor; cbn; discriminate.
+Qed.
